@@ -21,3 +21,7 @@ def run(tier, seed, verdict):
              "concretisation; full projection (all lists, role links, survivors) compared after each call and after reopen",
         assumptions=["what a dimension link reports after its target was deleted is left open",
                      "positions/extents/feature data pointing into another block are not generated"])
+
+
+def replay(path):
+    return mr.replay_file(path)
